@@ -69,6 +69,14 @@ fn main() {
         "golden-gen" => std::process::exit(golden::golden_gen(&args[2])),
         "worker" => worker::worker_main(&args[2..]),
         "exec" => worker::exec_main(&args[2..]),
+        "xproc" => {
+            let code = match args[2].as_str() {
+                "dump" => xproc::dump_main(&args[3], &args[4]),
+                "runb" => xproc::runb_main(&args[3], &args[4]),
+                _ => 2,
+            };
+            std::process::exit(code);
+        }
         "replay" => std::process::exit(coord::replay_main(&args[2])),
         "check" => {
             // check <prop> <quick|thorough>
